@@ -255,7 +255,8 @@ class C01(Prop):
             yield mk_q_case("quantiles1", et, 4, [n], 0, vals, qs, lay1(n, rng.choice([1, -1, 2]), 0, 0), ("P", rng.below(3)))
         # malformed stream: invalid q, empty axis
         for et in ("i32", "n64"):
-            for qs in ([-0.1], [1.5], [0.5, 2.0, -1.0], [float("inf")], [0.2, -0.0]):
+            for qs in ([-0.1], [1.5], [0.5, 2.0, -1.0], [float("inf")], [0.2, -0.0], [-2.7755575615628914e-17], [0.5, -5e-324, 3.0],
+                       [1.0000000000000002]):
                 yield mk_q_case("quantiles", et, 1, [3], 0, self._lane(et, 3, rng, 1), qs, lay1(3), ("R",))
             # two different offenders: the first one in LOGICAL order is reported, however the q array is laid out
             for il in range(4):
